@@ -5,6 +5,14 @@ root = os.path.dirname(os.path.dirname(os.path.abspath(__file__)))
 ALL = ["C%02d" % i for i in range(1, 21)]
 # id -> (technique, level text, level note, design_ref)
 BUILT = {
+ "C03": ("stateless deviation-bounded DFS over map-iteration schedules (source-level seam: every `range <map>` of the working tree rewritten to a scheduler-controlled iterator) on the real parser/assembler/format/update/compare code; fresh-process cross-check",
+         "L1: every line of <=4/5 tokens over the 16-token directive alphabet is parsed under every schedule that lets any directive pattern be tried first; L2: every program of <=2/3 lines over the line menu x {generate, format, format --check, update, compare} under every map order with <=1..3 deviations from canonical order; all observations (stdout, outcome, resulting files) must be a single value. Exhaustive within the stated deviation bounds.",
+         "Map iteration is the only scheduling nondeterminism on these paths; every explored order is one the Go spec allows; third-party packages not instrumented; one schedule is replayed twice before any alarm; hash-seed dependence is additionally sampled by fresh processes whose outcome must lie in the explored set.",
+         "DESIGN.md §2.4, §3 C03"),
+ "C04": ("explicit-state product-automaton search (language inclusion of the reference expansion in the generated regex) over an exhaustively enumerated word x shell x template x configuration space",
+         "Every command word of <=3/4 characters over {a,b,1,.,-,_,space} with every ending, in unix and windows blocks, in 4 templates, under 8 toolchain.yaml variants (CRS-like, block scalars needing trimming, literals, empty, partial, absent, invalid, directory) is compiled by the real code (configuration reloaded from disk each time) and the language of its reference expansion - all evasion strings at once - is decided to be included in the output.",
+         "Expected patterns per configuration known to the generator; inclusion not equality; witnesses re-validated with Go regexp; CLI conformance on the single-character lower bound.",
+         "DESIGN.md §3 C04"),
  "C01": ("explicit-state product-automaton search (language equivalence of generated regex vs. reference model) over an exhaustively enumerated bounded program space; shrinking; CLI conformance replay",
          "Every program of the bounded strata (single entries <=3/4 tokens over 30 tokens, ordered pairs of entries <=2 tokens, triples, all well-formed structural bodies of <=5/6 lines, rewritten entries at 6 structural positions, x flag/prefix/suffix headers) is compiled by the real assembler and its output is decided language-equal (contextual full-match equivalence, all strings at once) to the plain reading by searching the product of the two NFAs. Bounded-exhaustive in programs, complete in subject strings.",
          "Reference model ref.Plain; regexp/syntax compilation as NFA semantics; every counterexample string re-validated with Go's regexp engine; in-process seam validated against the real CLI on the complete lower bound each run.",
